@@ -2,6 +2,7 @@ package main
 
 import (
 	"os"
+	"regexp"
 	"sort"
 	"fmt"
 	"go/token"
@@ -1198,10 +1199,19 @@ func (g *Gen) siteClauses(b *ssa.BasicBlock, ins ssa.CallInstruction, st *State,
 	}
 }
 
+var variadicArgRe = regexp.MustCompile(`\$\d+\[`)
+
 // writeOnlyArray: a private array allocation (variadic argument array) that the function itself never reads.
 func (g *Gen) writeOnlyArray(a *ssa.Alloc) bool {
 	if g.con != nil && g.con.ArgsOnly {
 		return false // call-site assertions may speak about the variadic arguments: model the array
+	}
+	if g.con != nil {
+		for _, sc := range g.con.Sites {
+			if variadicArgRe.MatchString(sc.Src) {
+				return false // a site assertion indexes a variadic argument ($k[i]): model the arrays
+			}
+		}
 	}
 	if _, isArr := a.Type().Underlying().(*types.Pointer).Elem().Underlying().(*types.Array); !isArr {
 		return false
